@@ -7,6 +7,7 @@ From ACPI Require Import Lib.Bytes Lib.Sx Lib.Machine Impl.Fields Impl.Table Imp
 From ACPI Require Import Impl.Mcfg Impl.Xsdt Impl.Srat Spec.McfgS Spec.XsdtS Spec.SratS
   Proofs.MadtRefP Proofs.McfgRefP Proofs.XsdtRefP Proofs.SratRefP Proofs.FadtRefP Proofs.RsdpRefP Proofs.FixedRefP.
 From ACPI Require Import Impl.Rhct Impl.Viot Impl.Rimt Spec.RhctS Spec.ViotS Spec.RimtS Proofs.RhctRefP Proofs.ViotRefP Proofs.RimtRefP.
+From ACPI Require Import Impl.Cedt Impl.Rqsc Impl.Hest Spec.CedtS Spec.RqscS Spec.HestS Proofs.RqscP Proofs.HestP Proofs.CedtRefP Proofs.RqscRefP Proofs.HestRefP.
 From ACPI Require Import Impl.Fadt Impl.Spcr Impl.Bert Impl.Tpm2 Impl.Rsdp Impl.Facs
   Spec.FadtS Spec.SpcrS Spec.BertS Spec.Tpm2S Spec.RsdpS Spec.FacsS.
 Import ListNotations.
@@ -77,6 +78,31 @@ Theorem c04_rimt_refines :
     exists s0 s, rimt_new ctor = Some s0 /\ run_adds rimt_addition md s0 ops = Some s /\ tbl_image s = r.
 Proof. exact rimt_refines. Qed.
 
+Theorem c04_cedt_refines :
+  forall md ctor ops r,
+    ts_image cedt_spec ctor ops = Some r -> N.of_nat (length r) < 2 ^ 32 ->
+    exists s0 s, cedt_new ctor = Some s0 /\ run_adds cedt_addition md s0 ops = Some s /\ tbl_image s = r.
+Proof. exact cedt_refines. Qed.
+
+(* RQSC: controllers with nested resources *)
+Theorem c04_rqsc_refines :
+  forall md ctor ops r,
+    ts_image rqsc_spec ctor ops = Some r -> N.of_nat (length r) < 2 ^ 32 ->
+    exists s0 s, rqsc_new ctor = Some s0 /\ rqsc_run md s0 ops = Some s /\ Rqsc.rqsc_image s = r.
+Proof. exact rqsc_refines. Qed.
+
+(* HEST, histories of error-source additions (the five source types, any setter sequences).  The stand-alone structures are in
+   Proofs/HestRefP.v (hest_refines), where the Generic Error Data structure is excluded: it is the open known finding
+   (hest_refines_refuted_ged is its machine-checked witness: 58 bytes emitted, 72 in the reference). *)
+Theorem c04_hest_refines :
+  forall md ctor ops r,
+    ts_image hest_spec ctor ops = Some r ->
+    forallb (fun o => negb (is_alone_op o)) ops = true ->
+    N.of_nat (length r) < 2 ^ 32 ->
+    exists t0 s, hest_new ctor = Some t0 /\ hest_run md {| hs_tbl := t0; hs_alone := None |} ops = Some s /\
+                 Hest.hest_image s = Some r.
+Proof. exact hest_table_refines. Qed.
+
 (* FADT (any builder calls), SPCR, BERT, TCPA server / client, TPM2 (with or without log area), RSDP, FACS;
    refines spec wf new step image := forall md ctor ops r, ts_image spec ctor ops = Some r -> wf ctor ->
                                      exists s0 s, new ctor = Some s0 /\ run_steps (step md) s0 ops = Some s /\ image s = r *)
@@ -101,3 +127,6 @@ Print Assumptions c04_fixed_structures_refine.
 Print Assumptions c04_rhct_refines.
 Print Assumptions c04_viot_refines.
 Print Assumptions c04_rimt_refines.
+Print Assumptions c04_cedt_refines.
+Print Assumptions c04_rqsc_refines.
+Print Assumptions c04_hest_refines.
